@@ -1,6 +1,7 @@
 package main
 
 import (
+	"regexp"
 	"fmt"
 	"go/ast"
 	"go/token"
@@ -244,6 +245,11 @@ func (fv *FuncVerifier) evalCall(st *State, env *Env, call *ast.CallExpr) []Term
 			st.Assume(fv.typeInv(r, sig.Results().At(i).Type()))
 			res = append(res, r)
 		}
+	}
+	// ghost `fnres`: what the LAST call of an unknown function value (a callback parameter) answered, when it answers
+	// with a bool ("go on" / "stop")
+	if !env.spec && len(res) > 0 && res[0].Sort == SBool {
+		st.ghost["fnres"] = res[0]
 	}
 	// `fnvalue-calllog K`: calls of unknown function values in this function are user callbacks, logged with kind K
 	if !env.spec && fv.fn.Contr != nil {
@@ -1402,6 +1408,9 @@ func (fv *FuncVerifier) callRepoFunc(st *State, env *Env, call *ast.CallExpr, fi
 	names := map[string]Term{}
 	fv.bindResultNames(fi, res, names, binds)
 	for _, cl := range c.Get("ensures", 0, 0) {
+		if mentionsInternalGhost(cl.Text) {
+			continue // a claim about the callee's own execution (loop / callback ghosts): nothing a caller can use
+		}
 		g := fv.evalClauseFor(fi, st, cl, binds, names, pre, preBinds)
 		st.Assume(g)
 	}
@@ -1527,6 +1536,9 @@ func (fv *FuncVerifier) devirtualise(st *State, ifn *types.Func, recv Term, args
 		fv.bindResultNames(fi, res, names, binds)
 		var ens []Term
 		for _, cl := range fi.Contr.Get("ensures", 0, 0) {
+			if mentionsInternalGhost(cl.Text) {
+				continue
+			}
 			ens = append(ens, fv.evalClauseFor(fi, st, cl, binds, names, st, binds))
 		}
 		isT := App(SBool, "=", App(SInt, "dyn", recv), fv.w.Tag(types.TypeString(rt, nil)))
@@ -2050,3 +2062,14 @@ func (fv *FuncVerifier) aliasMutateGuard(st *State, env *Env, call *ast.CallExpr
 	fv.oblige(st, env, "S", "alias-mutate", goal, call.Lparen,
 		full+" rearranges, in its backing array, a slice this function does not own (it aliases a slice read from the heap or a parameter): other holders of that array would see elements shifted or overwritten")
 }
+
+var witnessRe = regexp.MustCompile(`\[[^\[\]]*\]\s*::`)
+
+// mentionsInternalGhost: the clause (existential witnesses aside, which callers do not read) names a ghost that only
+// exists inside the unit the clause belongs to.
+func mentionsInternalGhost(text string) bool {
+	return internalGhostRe.MatchString(witnessRe.ReplaceAllString(text, "::"))
+}
+
+// internalGhostRe: ghost names that only exist inside the unit a clause belongs to.
+var internalGhostRe = regexp.MustCompile(`\b(fnres|done\d+|it\d+|off\d+|ks\d+|xs\d+|ys\d+b?)\b`)
